@@ -285,8 +285,8 @@ func c16Struct(c *Ctx, l *TLake, pool string, preds []*c16Pred) {
 
 // c16Domain is ordered by compare(·,·,nullsMax): numbers < strings < null; "missing" is a
 // record with no key field.
-var c16Domain = []string{"-3", "0", "2", "5", "5.", "5.5", "5(uint64)", "9", `"a"`, `"b"`, "null", "MISSING"}
-var c16Lits = []string{"-3", "0", "2", "5", "5.", "5.5", "5(uint64)", "7", "9", `"a"`, `"b"`, "null"}
+var c16Domain = []string{"-3", "0", "2", "5", "5.", "5.5", "5(uint64)", "9", `""`, `"a"`, `"b"`, "null", "null(int64)", "null(string)", "MISSING"}
+var c16Lits = []string{"-3", "0", "2", "5", "5.", "5.5", "5(uint64)", "7", "9", `""`, `"a"`, `"b"`, "null"}
 
 func c16Rec(key string, id int) string {
 	if key == "MISSING" {
